@@ -1,0 +1,33 @@
+//go:build verif
+
+package net
+
+import (
+	"context"
+	gonet "net"
+
+	libpeer "github.com/libp2p/go-libp2p/core/peer"
+	grpcpeer "google.golang.org/grpc/peer"
+)
+
+type verifAddr string
+
+func (a verifAddr) Network() string { return "libp2p" }
+func (a verifAddr) String() string  { return string(a) }
+
+var _ gonet.Addr = verifAddr("")
+
+// VerifPushLog hands a push-log request to the receiving side of this peer, exactly as the gRPC handler
+// does when the request arrives from the peer `from` (build tag verif). It lets the verification harness
+// deliver a head block at a moment of its choosing, e.g. while the sender is unreachable.
+func (p *Peer) VerifPushLog(ctx context.Context, from libpeer.ID, docID string, cid []byte, collectionID string, block []byte) error {
+	ctx = grpcpeer.NewContext(ctx, &grpcpeer.Peer{Addr: verifAddr(from.String())})
+	_, err := p.server.processPushlog(ctx, &pushLogRequest{
+		DocID:        docID,
+		CID:          cid,
+		CollectionID: collectionID,
+		Creator:      from.String(),
+		Block:        block,
+	}, true)
+	return err
+}
